@@ -15,3 +15,7 @@ for r in recs:
         if r["error"]: print(r["error"][-1500:])
         if r["undecided"]: print("  UNDECIDED:", r["undecided"])
         for x in bad: print("  ", x["verdict"], x["id"][-110:], x["solver"], x["time_s"], x.get("file"))
+for r in recs:
+    dc = [pi for pi, v in r.get("cover", []) if v == "unsat"]
+    if dc:
+        print("DEAD", r["task"][-100:], dc, [r["decisions"][pi] for pi in dc if pi < len(r.get("decisions", []))][:2])
